@@ -11,6 +11,7 @@ Node bodies are deterministic functions of (kwargs, invocation, attempt): proven
 (None / 0 / '' to exercise falsy handling), labels, planned exceptions, `next_iteration` while inv < recur_k.
 """
 import contextvars
+import os
 import random
 import sys
 import types
@@ -275,13 +276,42 @@ def mark_source(nodes, m):
 _mod_counter = [0]
 
 
-def build_classes(spec, H):
-    """exec the generated source in a fresh module; returns {index: class}"""
+_scratch = {'dir': None}
+
+
+def scratch_dir():
+    import atexit
+    import shutil
+    import tempfile
+    if _scratch['dir'] is None:
+        _scratch['dir'] = tempfile.mkdtemp(prefix='mlpe_gen_')
+        sys.path.insert(0, _scratch['dir'])
+        atexit.register(lambda: shutil.rmtree(_scratch['dir'], ignore_errors=True))
+    return _scratch['dir']
+
+
+def build_classes(spec, H, as_file=False):
+    """exec the generated source in a fresh module; returns {index: class}.
+    as_file=True writes a real module file (in a scratch directory removed at exit) so that `inspect` finds sources."""
     _mod_counter[0] += 1
-    mod = types.ModuleType(f'mlpe_gen_{_mod_counter[0]}')
-    mod.H = H
+    name = f'mlpe_gen_{os.getpid()}_{_mod_counter[0]}'
     src = class_source(spec)
-    exec(compile(src, mod.__name__, 'exec'), mod.__dict__)
+    if as_file:
+        import importlib.util
+        path = os.path.join(scratch_dir(), name + '.py')
+        with open(path, 'w') as f:
+            f.write('H = None\n' + src)
+        sp = importlib.util.spec_from_file_location(name, path)
+        mod = importlib.util.module_from_spec(sp)
+        sys.modules[name] = mod
+        mod.H = H
+        code = compile(open(path).read(), path, 'exec')
+        exec(code, mod.__dict__)
+        mod.H = H
+    else:
+        mod = types.ModuleType(name)
+        mod.H = H
+        exec(compile(src, mod.__name__, 'exec'), mod.__dict__)
     return {i: getattr(mod, n['name']) for i, n in enumerate(spec['nodes'])}, src
 
 
